@@ -42,8 +42,8 @@ def pool():
     ]
 
 
-ATTRS = [None, {'stroke': '#f00'}, {'stroke-width': '2', 'fill': 'none', 'id': 'p1'}]
-SVGATTRS = [None, {'viewBox': '0 0 100 100', 'width': '200px', 'height': '100px'}]
+ATTRS = [None, {'stroke': '#f00'}, {'stroke-width': '2', 'fill': 'none', 'id': 'p1'}, {'d': 'M 9 9 L 8 7', 'stroke': '#0f0'}]
+SVGATTRS = [None, {'viewBox': '0 0 100 100', 'width': '200px', 'height': '100px'}, {'height': '77mm'}, {'width': '30cm'}]
 
 
 def same_path(a, b):
@@ -66,6 +66,8 @@ def attrs_contained(supplied, returned):
     if not supplied:
         return True
     for k, v in supplied.items():
+        if k == 'd':
+            continue        # the path given to the writer is the element's geometry, not a stale 'd' attribute
         if str(returned.get(k)) != str(v):
             return False
     return True
@@ -148,6 +150,7 @@ def read_back(fn, paths, attributes, svgat, case, sig, acc):
 DOC_OPS = [
     ['add_path', 'Path', 0, 0, None], ['add_path', 'Path', 2, 1, None], ['add_path', 'segment', 3, 0, None],
     ['add_path', 'dstring', 4, 2, None], ['add_path', 'Path', 1, 2, ['ga']], ['add_path', 'Path', 4, 0, ['ga', 'gb']],
+    ['add_path', 'Path', 3, 3, None],
     ['add_group', ['gc']], ['save'], ['save_reload'],
 ]
 
